@@ -58,6 +58,22 @@ CLAIMED = {
          "TLC checks PamSuccessOnlyOnOK / PamSuccessOnOK and the liveness property PamTerminates for every server script (17 reply shapes incl. over-long and inconsistent lengths x cut at 0..4, need-1, need, need+1, all bytes x delay none/short/long x close/stall x errno on entry) and prints the demanded outcome; each script is played by a scripted unix-socket server against the module compiled unmodified against stub PAM headers with AddressSanitizer and UBSan; PAM return code, wall time, the request bytes received (wire format with 256-byte clipping) and sanitizer reports are compared.",
          "libpam replaced by a small stub; memory safety is decided by the sanitizers during replays, not by TLA+; timeout=1 only.",
          "4/C20"),
+ "C02": ("TLC enumeration of the Record case analysis (first-line field classes, three-valued verdicts) replayed as real files through store.Dir, plus every Store edge with unsupported files",
+         "TLC enumerates every combination of first-line field classes with at most 2 (thorough: 3) deviations from a canonical record and checks the laws of the case analysis (no authentication without a matching digest, malformed never authenticates); each case is built as real bytes for both algorithms and exercised through authenticate (right, wrong, empty, near-miss passwords), list, list-full, add, exists, update (refused => byte-identical) and remove under a watchdog with panic capture; the schema's rules inside histories are checked on every Store edge.",
+         "Byte strings outside the modelled classes are only sampled (binary-junk). Lenient spellings whose meaning satisfies the property's condition may go either way ('may').",
+         "4/C02"),
+ "C16": ("TLC enumeration of the DirCheck case analysis (29 160 directory contents) replayed against Check/List/ListFull/Init; validity after every Store edge and at every idle point of agent histories; CLI leg on the built binary",
+         "Every directory-content case (valid names x {absent, .user/.admin with supported/unsupported/empty hash, both}, other extensions, sub-directories, .tmp absent/dir/file, invalid-named files) is materialised in two creation orders and Check, List, ListFull and Init are compared with the declarative predicate; every Store edge checks `valid stays valid`, one file per user and an empty work area; idle points of concurrent agent histories must pass Check with an empty .tmp; the built binary must exit with status 3 for every command on directories that fail the check and run with --do-check=false.",
+         "Directory names are two valid names plus representatives; unreadable directories are not generated (the harness runs as root).",
+         "4/C16"),
+ "C17": ("TLC NoWriteWithoutPolicy on Agent with a restrictive policy + Policy case analysis replayed through NewPasswordPolicy/NewStore + every write path of the real agent validated against TraceAgent with an independently computed PolicyOK",
+         "TLC checks NoWriteWithoutPolicy (incl. the internal hash upgrade) on the Agent model and enumerates the Policy condition-string cases; each case goes through NewPasswordPolicy and NewStore (an unparsable policy must stop the agent) and accepted policies are compared with an independent zxcvbn call on probe passwords; add/update through the in-process interface and the HTTP API, init, local upgrades of weak passwords and seeded loads are run for score/entropy/time conditions and their traces validated against TraceAgent whose PolicyOK constant is computed by the harness itself; the built binary is driven for add/update with passing/failing passwords and unparsable conditions.",
+         "zxcvbn-go is trusted (called independently of policy.go). Passwords whose verdict depends on the user name are avoided in scenarios.",
+         "4/C17"),
+ "C18": ("TLC enumeration of the Config case analysis replayed through NewDirFromConfig with accepted sets used in a child process; reload sequences on a real agent (SIGHUP) validated by TLC against Reload.tla",
+         "Every Config case (<= 2 deviations from a good document: YAML shape, basedir, default, parameter list shapes, scrypt/argon2id value classes, unknown keys) is rendered as YAML and the loader's verdict compared (must / may / mustnot); every accepted configuration is used - add + authenticate per set - in a child process where a crash or hang is an outcome; sequences of on-disk configurations (valid, other base/default/sets, unparsable, unknown key, bad default, missing, directory failing the check) with SIGHUP are run on a real agent under continuous requests and the hook-reported outcome, the location/parameter set of subsequent writes and per-set logins are validated line by line against Reload.tla (never a mixture; in-flight requests answered).",
+         "Memory-exhausting values (scrypt cost 31, argon2 memory 2^32-1) are not generated. One process per reload sequence (SIGHUP is process-wide).",
+         "4/C18"),
 }
 
 checks = []
